@@ -1,7 +1,7 @@
 import CoapVerif.Lemmas.EditApi
 /-
 M-side lemmas for the editors (C04) and the builders (C01), part 5: the abstract outcomes of the API calls are steps of
-the specification (`Step`: accepted = `Spec.applyEdit`, refused = nothing changes, + the open finding), whole scripts
+the specification (`Step`: accepted = `Spec.applyEdit`, refused = nothing changes), whole scripts
 (`Trace`, `run_refines`).
 -/
 namespace Coap
@@ -27,12 +27,12 @@ def hopDomain (a : Msg) : Call → Bool
   | _ => false
 
 /-- what one call does to the abstract message: accepted = the abstract operation of S (D13: with or without the
-implicit Hop-Limit, the former only where D13 allows it), refused = nothing (D14) — except `leftover`, the OPEN finding
-hop-limit-left-by-refused-proxy: a refused Proxy-Uri / Proxy-Scheme leaves the implicit Hop-Limit behind -/
+implicit Hop-Limit, the former only where D13 allows it), refused = nothing (D14).
+(Before the fix of hop-limit-left-by-refused-proxy there was a third constructor
+ `leftover : hopDomain a c = true → Step a c 0 { a with opts := Spec.insertStable 16 [16] a.opts }`.) -/
 inductive Step (a : Msg) (c : Call) : Nat → Msg → Prop
   | accepted (rc : Nat) (hop : Bool) : rc ≠ 0 → (hop = true → hopDomain a c = true) → Step a c rc (callSem hop a c)
   | refused : Step a c 0 a
-  | leftover : hopDomain a c = true → Step a c 0 { a with opts := Spec.insertStable 16 [16] a.opts }
 
 /-- a script on the abstract message -/
 inductive Trace : Msg → List Call → List Nat → Msg → Prop
@@ -53,47 +53,47 @@ theorem absPlace_cases (ms : Nat) (a : Msg) (n : Nat) (v : Bytes) :
   · rename_i h
     exact Or.inr ⟨rfl, rfl, fun h0 => h (Or.inl h0)⟩
 
-/-- the three possible outcomes of an option-adding call -/
+/-- the two possible outcomes of an option-adding call -/
 def AddOutcome (ms : Nat) (a : Msg) (n : Nat) (v : Bytes) (r : Nat × Msg) : Prop :=
   (r.1 ≠ 0 ∧ ∃ hop : Bool, (hop = true → Spec.hopApplies a.code n a.opts = true) ∧
       r.2 = { a with opts := Spec.addSem hop n v a.opts }) ∨
-  (r.1 = 0 ∧ r.2 = a ∧ (v.length > 65804 ∨ (n = lastNum a.opts ∧ ¬ repeatable n = true) ∨ ms ≠ 0)) ∨
-  (r.1 = 0 ∧ Spec.hopApplies a.code n a.opts = true ∧ r.2 = { a with opts := Spec.insertStable 16 [16] a.opts } ∧ ms ≠ 0)
+  (r.1 = 0 ∧ r.2 = a ∧ (v.length > 65804 ∨ (n = lastNum a.opts ∧ ¬ repeatable n = true) ∨ ms ≠ 0))
 
 theorem absAdd_cases (ms : Nat) (a : Msg) (n : Nat) (v : Bytes) : AddOutcome ms a n v (absAdd ms a n v) := by
   unfold absAdd AddOutcome
   by_cases hv : v.length > 65804
-  · rw [if_pos hv]; exact Or.inr (Or.inl ⟨rfl, rfl, Or.inl hv⟩)
+  · rw [if_pos hv]; exact Or.inr ⟨rfl, rfl, Or.inl hv⟩
   · rw [if_neg hv]
     by_cases hrep : n = lastNum a.opts ∧ ¬ repeatable n = true
-    · rw [if_pos hrep]; exact Or.inr (Or.inl ⟨rfl, rfl, Or.inr (Or.inl hrep)⟩)
+    · rw [if_pos hrep]; exact Or.inr ⟨rfl, rfl, Or.inr (Or.inl hrep)⟩
     · rw [if_neg hrep]
-      by_cases hhop : Spec.hopApplies a.code n a.opts = true
-      · rw [if_pos hhop]
-        rcases absPlace_cases ms a 16 [16] with ⟨_, _, h2⟩ | ⟨_, h2, _⟩
-        · rw [h2]
-          rcases absPlace_cases ms { a with opts := Spec.insertStable 16 [16] a.opts } n v with ⟨_, k1, k2⟩ | ⟨k1, k2, k3⟩
-          · exact Or.inl ⟨k1, true, fun _ => hhop, by rw [k2]; rfl⟩
-          · exact Or.inr (Or.inr ⟨k1, hhop, k2, k3⟩)
-        · rw [h2]
-          rcases absPlace_cases ms a n v with ⟨_, k1, k2⟩ | ⟨k1, k2, k3⟩
-          · exact Or.inl ⟨k1, false, (fun h => by cases h), by rw [k2]; rfl⟩
-          · exact Or.inr (Or.inl ⟨k1, k2, Or.inr (Or.inr k3)⟩)
-      · rw [if_neg hhop]
-        rcases absPlace_cases ms a n v with ⟨_, k1, k2⟩ | ⟨k1, k2, k3⟩
-        · exact Or.inl ⟨k1, false, (fun h => by cases h), by rw [k2]; rfl⟩
-        · exact Or.inr (Or.inl ⟨k1, k2, Or.inr (Or.inr k3)⟩)
+      obtain ⟨a1, ha1⟩ : ∃ a1, a1 = (if Spec.hopApplies a.code n a.opts = true then (absPlace ms a 16 [16]).2 else a) := ⟨_, rfl⟩
+      have hcase : a1 = a ∨ (Spec.hopApplies a.code n a.opts = true ∧ a1 = { a with opts := Spec.insertStable 16 [16] a.opts }) := by
+        by_cases hhop : Spec.hopApplies a.code n a.opts = true
+        · rw [ha1, if_pos hhop]
+          rcases absPlace_cases ms a 16 [16] with ⟨_, _, h2⟩ | ⟨_, h2, _⟩
+          · exact Or.inr ⟨hhop, h2⟩
+          · exact Or.inl h2
+        · rw [ha1, if_neg hhop]; exact Or.inl rfl
+      rw [← ha1]
+      rcases absPlace_cases ms a1 n v with ⟨_, k1, k2⟩ | ⟨k1, _, k3⟩
+      · rw [if_neg k1]
+        rcases hcase with h | ⟨hh, h⟩
+        · exact Or.inl ⟨k1, false, (fun h => by cases h), by rw [k2, h]; rfl⟩
+        · exact Or.inl ⟨k1, true, (fun _ => hh), by rw [k2, h]; rfl⟩
+      · rw [if_pos k1]
+        exact Or.inr ⟨rfl, rfl, Or.inr (Or.inr k3)⟩
 
 theorem absInsert_cases (ms : Nat) (a : Msg) (n : Nat) (v : Bytes) : AddOutcome ms a n v (absInsert ms a n v) := by
   unfold absInsert
   by_cases hv : v.length > 65804
-  · rw [if_pos hv]; exact Or.inr (Or.inl ⟨rfl, rfl, Or.inl hv⟩)
+  · rw [if_pos hv]; exact Or.inr ⟨rfl, rfl, Or.inl hv⟩
   · rw [if_neg hv]
     split
     · exact absAdd_cases ms a n v
     · rcases absPlace_cases ms a n v with ⟨_, k1, k2⟩ | ⟨k1, k2, k3⟩
       · exact Or.inl ⟨k1, false, (fun h => by cases h), by rw [k2]; rfl⟩
-      · exact Or.inr (Or.inl ⟨k1, k2, Or.inr (Or.inr k3)⟩)
+      · exact Or.inr ⟨k1, k2, Or.inr (Or.inr k3)⟩
 
 /-- each abstract outcome is a `Step` of the specification -/
 theorem absCall_step (ms : Nat) (a : Msg) (c : Call) : Step a c (absCall ms a c).1 (absCall ms a c).2 := by
@@ -109,16 +109,14 @@ theorem absCall_step (ms : Nat) (a : Msg) (c : Call) : Step a c (absCall ms a c)
       (if a.payload ≠ [] then (0, a) else absAdd ms a n v).2
     split
     · exact Step.refused
-    · rcases absAdd_cases ms a n v with ⟨k1, hop, k2, k3⟩ | ⟨k1, k2, _⟩ | ⟨k1, k2, k3, _⟩
+    · rcases absAdd_cases ms a n v with ⟨k1, hop, k2, k3⟩ | ⟨k1, k2, _⟩
       · rw [k3]; exact Step.accepted _ hop k1 k2
       · rw [k1, k2]; exact Step.refused
-      · rw [k1, k3]; exact Step.leftover k2
   | insertOption n v =>
     show Step a (.insertOption n v) (absInsert ms a n v).1 (absInsert ms a n v).2
-    rcases absInsert_cases ms a n v with ⟨k1, hop, k2, k3⟩ | ⟨k1, k2, _⟩ | ⟨k1, k2, k3, _⟩
+    rcases absInsert_cases ms a n v with ⟨k1, hop, k2, k3⟩ | ⟨k1, k2, _⟩
     · rw [k3]; exact Step.accepted _ hop k1 k2
     · rw [k1, k2]; exact Step.refused
-    · rw [k1, k3]; exact Step.leftover k2
   | updateOption n v =>
     show Step a (.updateOption n v) (absUpdate ms a n v).1 (absUpdate ms a n v).2
     unfold absUpdate
@@ -141,10 +139,9 @@ theorem absCall_step (ms : Nat) (a : Msg) (c : Call) : Step a c (absCall ms a c)
           intro hop; simp [callSem, Spec.applyEdit, hh]
         have hdom : hopDomain a (.updateOption n v) = Spec.hopApplies a.code n a.opts := by
           simp [hopDomain, hh]
-        rcases absInsert_cases ms a n v with ⟨k1, hop, k2, k3⟩ | ⟨k1, k2, _⟩ | ⟨k1, k2, k3, _⟩
+        rcases absInsert_cases ms a n v with ⟨k1, hop, k2, k3⟩ | ⟨k1, k2, _⟩
         · rw [k3, ← hsem hop]; exact Step.accepted _ hop k1 (by rw [hdom]; exact k2)
         · rw [k1, k2]; exact Step.refused
-        · rw [k1, k3]; exact Step.leftover (by rw [hdom]; exact k2)
   | removeOption n =>
     show Step a (.removeOption n) (absRemove a n).1 (absRemove a n).2
     unfold absRemove
@@ -204,7 +201,7 @@ def editNumOk : Spec.Edit → Prop
   | .setToken _ => True
 
 /-- the same edits applied to the abstract model, with M's return codes: an accepted edit is `Spec.applyEdit` (D13:
-Hop-Limit only where allowed), a refused one changes nothing — or is the open finding (`leftover`) -/
+Hop-Limit only where allowed), a refused one changes nothing (D14) -/
 inductive EditTrace : Msg → List Spec.Edit → List Nat → Msg → Prop
   | nil (a : Msg) : EditTrace a [] [] a
   | accepted {a a' : Msg} {e : Spec.Edit} {es : List Spec.Edit} {rc : Nat} {rcs : List Nat} (hop : Bool) :
@@ -212,9 +209,6 @@ inductive EditTrace : Msg → List Spec.Edit → List Nat → Msg → Prop
       EditTrace (Spec.applyEdit hop a e) es rcs a' → EditTrace a (e :: es) (rc :: rcs) a'
   | refused {a a' : Msg} {e : Spec.Edit} {es : List Spec.Edit} {rcs : List Nat} :
       EditTrace a es rcs a' → EditTrace a (e :: es) (0 :: rcs) a'
-  | leftover {a a' : Msg} {e : Spec.Edit} {es : List Spec.Edit} {rcs : List Nat} :
-      hopDomain a (callOf e) = true →
-      EditTrace { a with opts := Spec.insertStable 16 [16] a.opts } es rcs a' → EditTrace a (e :: es) (0 :: rcs) a'
 
 theorem callSem_callOf (hop : Bool) (a : Msg) (e : Spec.Edit) : callSem hop a (callOf e) = Spec.applyEdit hop a e := by
   cases e <;> rfl
@@ -237,6 +231,5 @@ theorem editTrace_of_trace (es : List Spec.Edit) : ∀ (a a' : Msg) (rcs : List 
         rw [callSem_callOf] at ht
         exact EditTrace.accepted hop h1 h2 ht
       | refused => exact EditTrace.refused ht
-      | leftover h1 => exact EditTrace.leftover h1 ht
 
 end Coap
